@@ -254,6 +254,112 @@ def maximize [BEq F] [Neg F] (attempt : Nat → Attempt F) (maxReps : Nat) (boun
 
 end wrapper
 
+/-! ### status → decision tables of the implementations (`has_converged`, `is_repeatable`) -/
+
+def isPrefixL : List Char → List Char → Bool
+  | [], _ => true
+  | _ :: _, [] => false
+  | a :: as, b :: bs => a == b && isPrefixL as bs
+
+def isInfixL (needle : List Char) : List Char → Bool
+  | [] => needle.isEmpty
+  | c :: cs => isPrefixL needle (c :: cs) || isInfixL needle cs
+
+/-- `'needle' in str(task)` -/
+def contains (hay needle : String) : Bool := isInfixL needle.toList hay.toList
+
+/-- `LBFGSMinimizerImpl.has_converged`: `status['warnflag'] == 0` -/
+def lbfgsConverged (warnflag : Int) : Bool := warnflag == 0
+
+/-- `LBFGSMinimizerImpl.is_repeatable`: warnflag 2 and the task message names the `FACTR` stop or an
+abnormal line-search termination (`'ABNORMAL'` covers the message of old and new scipy versions) -/
+def lbfgsRepeatable (warnflag : Int) (task : String) : Bool :=
+  warnflag == 2 && (contains task "FACTR" || contains task "ABNORMAL")
+
+/-- `CRSMinimizerImpl.minimize`: `"success": 0 < status < 5` (nlopt result codes 1..4; 5 = maxeval and
+6 = maxtime reached are not convergence) -/
+def crsSuccess (code : Int) : Bool := decide (0 < code) && decide (code < 5)
+
+/-- the implementations of the package: what `has_converged` / `is_repeatable` read -/
+inductive ImplStatus where
+  | lbfgs (warnflag : Int) (task : String)
+  | scipy (success : Bool)
+  | iminuit (success : Bool)
+  | crs (code : Int)
+  | nr (warnflag : Int)
+
+def implConverged : ImplStatus → Bool
+  | .lbfgs wf _ => lbfgsConverged wf
+  | .scipy ok => ok
+  | .iminuit ok => ok
+  | .crs code => crsSuccess code
+  | .nr wf => decide (wf ≤ 0)
+
+def implRepeatable : ImplStatus → Bool
+  | .lbfgs wf task => lbfgsRepeatable wf task
+  | .scipy _ => false
+  | .iminuit _ => true
+  | .crs _ => true
+  | .nr _ => false
+
+/-- one attempt of a real implementation as the wrapper sees it -/
+def attemptOfStatus {F : Type} (x : List F) (f : F) (st : ImplStatus) : Attempt F :=
+  { x := x, f := f, converged := implConverged st, repeatable := implRepeatable st }
+
+/-- `ScipyMinimizerImpl.minimize`: what happens to the bounds for a given method -/
+inductive BoundsMode where
+  | native        -- handed to scipy as `bounds=`
+  | constraints   -- COBYLA: translated into inequality constraints, `bounds=None`
+  | dropped       -- "does not support bounds. Continue at your own risk!", `bounds=None`
+  deriving DecidableEq, Repr
+
+def scipyBoundsMode (method : String) : BoundsMode :=
+  if method == "L-BFGS-B" || method == "TNC" || method == "SLSQP" then .native
+  else if method == "COBYLA" then .constraints
+  else .dropped
+
+/-! ### the generic objective of `LLHRatio.maximize` and exceptions inside the wrapper -/
+
+/-- `negative_llhratio_func`: `(-f, -grads)` of `evaluate`, counting the calls -/
+def negFunc {F : Type} [Neg F] (evaluate : List F → F × List F) (x : List F) : F × List F :=
+  let r := evaluate x
+  (-r.1, r.2.map (fun g => -g))
+
+section wrapperE
+variable {F : Type} [LT F] [DecidableLT F] [BEq F]
+
+/-- the repetition loop when a call of the implementation may raise (`.error`): the exception leaves
+`Minimizer.minimize` at once -/
+def wrapLoopE (attempt : Nat → Except String (Attempt F)) :
+    Nat → Nat → Attempt F → Except String (Attempt F × Nat)
+  | 0, reps, cur => .ok (cur, reps)
+  | fuel + 1, reps, cur =>
+    if !cur.converged && cur.repeatable then
+      match attempt (reps + 1) with
+      | .error e => .error e
+      | .ok a => wrapLoopE attempt fuel (reps + 1) a
+    else .ok (cur, reps)
+
+/-- `Minimizer.minimize` with an implementation and an objective that may raise -/
+def wrapperE (attempt : Nat → Except String (Attempt F)) (maxReps : Nat) (bounds : List (F × F))
+    (func : List F → Except String F) : Except String (WrapOut F) :=
+  match attempt 0 with
+  | .error e => .error e
+  | .ok a0 =>
+    match wrapLoopE attempt maxReps 0 a0 with
+    | .error e => .error e
+    | .ok r =>
+      if !r.1.converged then .error "ValueError:not-converged"
+      else if hasNaN r.1.x then .error "ValueError:nan"
+      else if anyOut r.1.x bounds then
+        let x' := clipAll r.1.x bounds
+        match func x' with
+        | .error e => .error e
+        | .ok v => .ok { x := x', f := v, reps := r.2, reevaluated := true }
+      else .ok { x := r.1.x, f := r.1.f, reps := r.2, reevaluated := false }
+
+end wrapperE
+
 /-! ### `FuncWithGradsFunctor` (minimizers/iminuit.py) and the life time of its cache -/
 
 section functor
